@@ -132,7 +132,7 @@ def run3 := Cache.stepCb fifoPolicy cfg cb 1
   (.ins 2 3 1 .normal false)
 /-- the third insert evicts key 0; the listener sees key 0 gone (`contains` = false) and inserts
 key 1000, which in turn evicts key 1 -/
-example : run3.2.map (·.ret) = [.handle ⟨2, 2, 2, 3, 1, .normal, false⟩, .bool false, .handle ⟨3, 1000, 1000, 99, 1, .normal, false⟩] := by decide
+example : run3.2.map (·.ret) = [.handle { id := 2, key := 2, hash := 2, ver := 3, weight := 1 }, .bool false, .handle { id := 3, key := 1000, hash := 1000, ver := 99, weight := 1 }] := by decide
 example : run3.2.map (fun o => o.leaves.map (·.2.key)) = [[0], [], [1]] := by decide
 end Demo
 
